@@ -2,6 +2,7 @@ use crate::core::Run;
 pub mod c01;
 pub mod c15;
 pub mod c16;
+pub mod c17;
 pub mod c18;
 pub mod c19;
 pub mod cal;
@@ -22,6 +23,7 @@ pub fn dispatch(prop: &str, run: &mut Run) {
         "CAL" => cal::run(run),
         "C15" => c15::run(run),
         "C16" => c16::run(run),
+        "C17" => c17::run(run),
         "C18" => c18::run(run),
         "C19" => c19::run(run),
         "C01" => c01::run(run),
